@@ -49,6 +49,10 @@ def make_source():
     s.types["User"].field_map["friends"].argument_map["first"].python_name = "first_py"
     s.register_resolver("Query", "me", r_me)
     s.register_resolver("User", "friends", lambda root, ctx, info, first_py=10, filter=None: [])
+    def r_schema_default(root, ctx, info, **kw):
+        from py_gql.execution.default_resolver import default_resolver as _d
+        return _d(root, ctx, info, **kw)
+    s.default_resolver = r_schema_default    # the documented way to set the schema-wide default resolver
     s.register_default_resolver("User", r_default)
     s.register_subscription("Subscription", "tick", r_sub)
     s.types["Pet"].resolve_type = lambda value, ctx, info: "Dog"
@@ -196,6 +200,12 @@ def preserved(before, after, kw):
                 if all(x in a for x in val if (tname, x[0]) not in set(kw.get("hidden_input_fields", ()))):
                     continue
             bad.append("%s: %r became %r" % (key, val, a))
+    if before.get("default_resolver") != after.get("default_resolver"):
+        bad.append("schema.default_resolver: %r became %r" % (before.get("default_resolver"), after.get("default_resolver")))
+    # no type or directive the operation did not hide goes missing (also those nothing refers to: clients name them in type conditions, variables, __type)
+    for tname in before["types"]:
+        if tname not in hidden_t and tname not in after["types"]:
+            bad.append("type %s disappeared" % tname)
     if not camel:
         for tname, t in before["types"].items():
             if tname in hidden_t or tname not in after["types"]:
